@@ -88,6 +88,9 @@ inductive Stmt where
   /-- `UNWIND ds AS d MATCH (n:L) SET n.q = d, n.p = toBoolean(d)`: the same property slots of the same nodes are
       written once per list element; `toBoolean(1)` fails after earlier elements have been staged -/
   | setrep (lbl : Nat) (ds : List Q)
+  /-- `MERGE (n:L {k: K}) ON MATCH SET n.q = w`: on the match branch it stages a property write for every matching
+      node and creates nothing — the executor's write count is 0 -/
+  | mergeset (lbl : Nat) (k : Nat) (w : Q)
   /-- a statement that is refused before execution: syntax error, or a read statement sent to the write API -/
   | refused
 deriving Repr, DecidableEq
@@ -100,6 +103,7 @@ def Stmt.reads : Stmt → Option Nat
   | .del l => some l
   | .merge l _ => some l
   | .setrep l _ => some l
+  | .mergeset l _ _ => some l
   | .refused => none
 
 /-- the label whose nodes a statement may write -/
@@ -110,6 +114,7 @@ def Stmt.writes : Stmt → Option Nat
   | .del l => some l
   | .merge l _ => some l
   | .setrep l _ => some l
+  | .mergeset l _ _ => some l
   | .refused => none
 
 /-- result of executing one statement: what it staged (in order) and whether it then failed -/
@@ -179,7 +184,23 @@ def exec (view : Graph) (next : Nat) : Stmt → Res
     if (scan view l).any (fun n => n.k = k) then ⟨[], false⟩
     else ⟨[.add ⟨next, l, k, none, none⟩], false⟩
   | .setrep l ds => execSetRep l (scan view l) ds
+  | .mergeset l k w =>
+    let hits := (scan view l).filter (fun n => n.k = k)
+    if hits.isEmpty then ⟨[.add ⟨next, l, k, none, none⟩], false⟩
+    else ⟨hits.map (fun n => .setQ n.id l w), false⟩
   | .refused => ⟨[], true⟩
+
+/-- the write count the executor reports (`execute_mixed`'s second component): the MERGE path counts only the
+    entities it created; the other statements count what they staged -/
+def reportedCount (s : Stmt) (r : Res) : Nat :=
+  match s with
+  | .merge .. => adds r.prims
+  | .mergeset .. => adds r.prims
+  | _ => r.prims.length
+
+/-- does `execute_write_count` commit after a successful statement?  Unconditionally (regenerated); the alternative
+    "skip the commit when the reported count is 0" is what seeded fault C34-seed4 does. -/
+def autoCommits (unconditional : Bool) (count : Nat) : Bool := unconditional || count != 0
 
 /-- database + at most one explicit write transaction -/
 structure State where
@@ -213,7 +234,9 @@ def step (atomic ryw : Bool) (σ : State) : Op → State × Out
     | none =>
       let r := exec σ.committed σ.allocated s
       if r.failed then (σ, .err)     -- the transaction is dropped
-      else (⟨applyAll σ.committed r.prims, σ.allocated + adds r.prims, none⟩, .ok)
+      else if autoCommits Generated.capiAutoCommitUnconditional (reportedCount s r) then
+        (⟨applyAll σ.committed r.prims, σ.allocated + adds r.prims, none⟩, .ok)
+      else (σ, .ok)                  -- success reported, transaction dropped without commit
   | .begin =>
     match σ.staged with
     | some _ => (σ, .bad)
